@@ -36,7 +36,8 @@ def _run_variant(job):
         rmod = importlib.import_module('sa.rules.%s' % prop.lower())
         rep = Report(prop)
         try:
-            rmod.run(prog, rep, 'quick')
+            from .cli import run_rules
+            run_rules(prop, rmod, prog, rep, 'quick')
         except AnalysisError as e:
             rep.error('analysis broken: %s' % e)
         known = [k for k in load_known() if k.get('property') == prop and k.get('status') == 'known']
